@@ -976,5 +976,370 @@ def cmd_stackeffect(args):
 CMDS["stackeffect"] = cmd_stackeffect
 
 
+
+# ---------------------------------------------------------------------------
+# C14 xdis.marsh <-> marshal on plain values
+
+
+def shrink(v, fails, budget=2000):
+    """Smallest sub-value that still fails on its own (structural shrink)."""
+    from vf.gen import values as GV
+
+    cur = v
+    while budget > 0:
+        nxt = None
+        for ch in GV.children(cur):
+            budget -= 1
+            try:
+                if fails(ch):
+                    nxt = ch
+                    break
+            except Exception:
+                pass
+            if budget <= 0:
+                break
+        if nxt is None:
+            return cur
+        cur = nxt
+    return cur
+
+
+def cmd_marsh(args):
+    import marshal
+    import random
+
+    import xdis.marsh as xm
+    from vf.gen import values as GV
+
+    acc = Acc()
+    rng = random.Random("%s|%s" % (args["seed"], args.get("part", 0)))
+    V = HOSTV
+
+    def nan_norm(c):
+        # C14 asks for an *equal value*; NaNs have no equality, so "is a NaN"
+        # is all that can be demanded (the sign/payload of a NaN is C01's
+        # business, where the statement names the bit pattern)
+        if isinstance(c, list):
+            if c and c[0] == "f" and isinstance(c[1], str) and len(c) == 2:
+                bits = int(c[1], 16)
+                if (bits & 0x7FF0000000000000) == 0x7FF0000000000000 and (bits & 0x000FFFFFFFFFFFFF):
+                    return ["f", "nan"]
+                return c
+            if c and c[0] == "c" and len(c) == 3:
+                return ["c", nan_norm(["f", c[1]])[1], nan_norm(["f", c[2]])[1]]
+            out = [nan_norm(x) for x in c]
+            if c and c[0] in ("F", "Z", "D") and len(out) == 2 and isinstance(out[1], list):
+                out[1] = sorted(out[1], key=C.sort_key)
+            return out
+        return c
+
+    def can(v):
+        c = nan_norm(C.canon(v, V, "full"))
+        if isinstance(c, list) and c and c[0] in ("F", "Z", "D"):
+            pass
+        return c
+
+    def check_dumps(v):
+        """xdis.marsh.dumps -> marshal.loads"""
+        try:
+            b = xm.dumps(v)
+        except Exception as e:
+            return "xdis.dumps-raises:" + type(e).__name__
+        if not isinstance(b, (bytes, bytearray)):
+            return "xdis.dumps-returns:" + type(b).__name__
+        try:
+            back = marshal.loads(b)
+        except Exception as e:
+            return "marshal.loads-rejects:" + type(e).__name__
+        a, c = can(v), can(back)
+        if a != c:
+            d = C.first_diff(a, c)
+            return "value-differs:%s->%s" % (C.kind_of(d[1]), C.kind_of(d[2]))
+        return None
+
+    def mk_check_loads(ver):
+        def check_loads(v):
+            try:
+                b = marshal.dumps(v, ver)
+            except Exception:
+                return None  # host marshal cannot write it: outside the domain
+            try:
+                back = xm.loads(b)
+            except Exception as e:
+                return "xdis.loads-raises:" + type(e).__name__
+            # text-float formats are lossy by construction (nan payloads):
+            # the reference is what the host's own marshal reads from b
+            a, c = can(marshal.loads(b)), can(back)
+            if a != c:
+                d = C.first_diff(a, c)
+                return "value-differs:%s->%s" % (C.kind_of(d[1]), C.kind_of(d[2]))
+            return None
+        return check_loads
+
+    def check_dump_file(v):
+        f = io.BytesIO()
+        try:
+            xm.dump(v, f)
+        except Exception as e:
+            return "xdis.dump-raises:" + type(e).__name__
+        f.seek(0)
+        try:
+            back = marshal.load(f)
+        except Exception as e:
+            return "marshal.load-rejects:" + type(e).__name__
+        if can(v) != can(back):
+            return "value-differs"
+        return None
+
+    def check_load_file(v):
+        try:
+            f = io.BytesIO(marshal.dumps(v, 0))
+        except Exception:
+            return None
+        try:
+            back = xm.load(f)
+        except Exception as e:
+            return "xdis.load-raises:" + type(e).__name__
+        if can(marshal.loads(f.getvalue())) != can(back):
+            return "value-differs"
+        return None
+
+    directions = [("dumps", check_dumps), ("loads-v0", mk_check_loads(0)), ("loads-v1", mk_check_loads(1)),
+                  ("dump-file", check_dump_file), ("load-file", check_load_file)]
+    n = args["n"]
+    for i in range(n):
+        v = GV.value(rng)
+        cls = GV.classify(v)
+        if GV.nontrivial(v):
+            try:
+                acc.distinct.add(sha(can(v)))
+            except Exception:
+                pass
+        for dname, fn in directions:
+            if dname.endswith("-file") and i % 4:
+                continue
+            acc.evaluations += 1
+            try:
+                r = fn(v)
+            except RecursionError:
+                r = "harness-recursion"
+            if r is not None:
+                small = shrink(v, lambda x: fn(x) is not None)
+                r2 = fn(small)
+                acc.mismatch("C14|%s|%s|%s" % (dname, GV.classify(small), r2 or r), host=vs(HOSTV),
+                             value=repr(small)[:200], top_class=cls)
+        for dname, fn in directions:
+            pass
+        if i < 3:
+            acc.sample({"host": vs(HOSTV), "class": cls, "value": repr(v)[:120]})
+    # a direction that fails for (nearly) every shape is one mechanism, not one per shape
+    per_dir = {}
+    for key, n in acc.per_key.items():
+        _p, dname, _cls, mech = key.split("|", 3)
+        per_dir.setdefault((dname, mech), set()).add(_cls)
+    collapse = set(k for k, classes in per_dir.items() if len(classes) >= 25)
+    if collapse:
+        newm, newpk = [], {}
+        for m in acc.mismatches:
+            _p, dname, _cls, mech = m["key"].split("|", 3)
+            if (dname, mech) in collapse:
+                m = {"key": "C14|%s|*all-shapes*|%s" % (dname, mech), "detail": m["detail"]}
+            newm.append(m)
+        for key, n in acc.per_key.items():
+            _p, dname, _cls, mech = key.split("|", 3)
+            if (dname, mech) in collapse:
+                key = "C14|%s|*all-shapes*|%s" % (dname, mech)
+            newpk[key] = newpk.get(key, 0) + n
+        seen = {}
+        acc.mismatches = []
+        for m in newm:
+            if seen.get(m["key"], 0) < 3:
+                seen[m["key"]] = seen.get(m["key"], 0) + 1
+                acc.mismatches.append(m)
+        acc.per_key = newpk
+    return acc.result()
+
+
+CMDS["marsh"] = cmd_marsh
+
+
+
+# ---------------------------------------------------------------------------
+# C16 native <-> portable conversion (runs natively on each host)
+
+
+def native_walk(co, path="0"):
+    yield path, co
+    for i, c in enumerate(co.co_consts):
+        if hasattr(c, "co_code"):
+            for x in native_walk(c, path + "." + str(i)):
+                yield x
+
+
+class ContractStats:
+    evaluations = 0
+    failures = []
+
+
+def install_replace_contract():
+    """icontract snapshot/ensure on the real replace(): the result differs from
+    the original in exactly the requested fields and the original's canonical
+    form is unchanged.  Conditions record and return True (never abort)."""
+    from xdis.codetype.code13 import Code13
+
+    try:
+        import icontract
+    except ImportError:
+        icontract = None
+    orig = Code13.replace
+
+    def snap(self):
+        return dict((k, C.canon(v, HOSTV, "ref")) for k, v in vars(self).items() if k.startswith("co_"))
+
+    def judge(self, kwargs, result, old):
+        ContractStats.evaluations += 1
+        now = snap(self)
+        if now != old:
+            ContractStats.failures.append(("original-mutated", sorted(k for k in now if now.get(k) != old.get(k))))
+        res = snap(result)
+        changed = sorted(k for k in set(res) | set(old) if res.get(k) != old.get(k))
+        want = sorted(k for k, v in kwargs.items() if C.canon(v, HOSTV, "ref") != old.get(k))
+        if changed != want:
+            ContractStats.failures.append(("wrong-fields-changed", changed, want))
+        if result is self:
+            ContractStats.failures.append(("returned-self",))
+        return True
+
+    if icontract is not None:
+        class Broken(Exception):
+            pass
+
+        def old_state(self):
+            return snap(self)
+
+        def post(self, result, OLD, _ARGS=None):
+            return True
+
+        def replace(self, **kwargs):
+            old = snap(self)
+            result = orig(self, **kwargs)
+            judge(self, kwargs, result, old)
+            return result
+
+        # icontract's decorator checks the postcondition at exit in the calling
+        # thread; the recording condition above keeps the witness
+        def ensure_recorded(self, result):
+            return result is not None
+
+        wrapped = icontract.ensure(ensure_recorded, error=Broken)(replace)
+        Code13.replace = wrapped
+        return "icontract"
+    else:
+        def replace(self, **kwargs):
+            old = snap(self)
+            result = orig(self, **kwargs)
+            judge(self, kwargs, result, old)
+            return result
+
+        Code13.replace = replace
+        return "wrapper"
+
+
+def cmd_roundtrip(args):
+    import warnings
+
+    from xdis.codetype import codeType2Portable, portableCodeType
+
+    warnings.simplefilter("ignore")
+    acc = Acc()
+    how = install_replace_contract()
+    acc.count("c16_replace_contract_via_" + how)
+    want_type = portableCodeType()
+    H = vs(HOSTV)
+    fields = None
+    for src in args["sources"]:
+        try:
+            with open(src, "rb") as f:
+                text = f.read()
+            top = compile(text, src, "exec", dont_inherit=True)
+        except (SyntaxError, ValueError, RecursionError, MemoryError, OverflowError):
+            acc.count("host_rejected_source")
+            continue
+        acc.count("files")
+        for path, c in native_walk(top):
+            acc.evaluations += 1
+            if fields is None:
+                fields = sorted(a for a in dir(c) if a.startswith("co_") and not callable(getattr(c, a)))
+                if "co_lnotab" in fields and HOSTV >= (3, 10):
+                    fields.remove("co_lnotab")  # derived (deprecated) attribute, not data
+            try:
+                p = codeType2Portable(c)
+            except Exception as e:
+                acc.mismatch("C16|h%s|codeType2Portable-raises:%s" % (H, type(e).__name__), file=src, path=path, msg=str(e)[:200])
+                continue
+            if type(p) is not want_type:
+                acc.mismatch("C16|h%s|portable-type" % H, file=src, path=path, got=type(p).__name__, want=want_type.__name__)
+            try:
+                n = p.to_native()
+            except Exception as e:
+                acc.mismatch("C16|h%s|to_native-raises:%s" % (H, type(e).__name__), file=src, path=path, msg=str(e)[:200])
+                continue
+            for a in fields:
+                try:
+                    x, y = getattr(c, a), getattr(n, a)
+                except Exception as e:
+                    acc.mismatch("C16|h%s|to_native|field=%s|getattr-raises" % (H, a), file=src, path=path)
+                    continue
+                if x != y or type(x) is not type(y):
+                    acc.mismatch("C16|h%s|to_native|field=%s" % (H, a), file=src, path=path,
+                                 expected=repr(x)[:160], observed=repr(y)[:160])
+            if hasattr(c, "co_lines"):
+                try:
+                    if list(c.co_lines()) != list(n.co_lines()):
+                        acc.mismatch("C16|h%s|to_native|co_lines()" % H, file=src, path=path,
+                                     expected=list(c.co_lines())[:6], observed=list(n.co_lines())[:6])
+                except Exception as e:
+                    acc.mismatch("C16|h%s|to_native|co_lines()-raises:%s" % (H, type(e).__name__), file=src, path=path)
+            if hasattr(c, "co_positions"):
+                try:
+                    if list(c.co_positions()) != list(n.co_positions()):
+                        acc.mismatch("C16|h%s|to_native|co_positions()" % H, file=src, path=path)
+                except Exception as e:
+                    acc.mismatch("C16|h%s|to_native|co_positions()-raises:%s" % (H, type(e).__name__), file=src, path=path)
+            if n != c:
+                acc.mismatch("C16|h%s|to_native|code-equality" % H, file=src, path=path)
+            # portable attributes equal the native ones
+            for a in fields:
+                if hasattr(p, a):
+                    if getattr(p, a) != getattr(c, a):
+                        acc.mismatch("C16|h%s|portable|field=%s" % (H, a), file=src, path=path,
+                                     expected=repr(getattr(c, a))[:160], observed=repr(getattr(p, a))[:160])
+            # replace(): changed copy, original untouched
+            before = len(ContractStats.failures)
+            try:
+                q = p.replace(co_name=c.co_name + "_x", co_firstlineno=c.co_firstlineno + 7)
+                q2 = p.replace(co_consts=tuple(c.co_consts) + (None,))
+                if q.co_name != c.co_name + "_x" or q.co_firstlineno != c.co_firstlineno + 7:
+                    acc.mismatch("C16|h%s|replace|field-not-set" % H, file=src, path=path)
+                if len(q2.co_consts) != len(c.co_consts) + 1:
+                    acc.mismatch("C16|h%s|replace|field-not-set" % H, file=src, path=path)
+                if p.co_name != c.co_name or p.co_firstlineno != c.co_firstlineno or tuple(p.co_consts) != tuple(c.co_consts):
+                    acc.mismatch("C16|h%s|replace|original-altered" % H, file=src, path=path)
+            except Exception as e:
+                acc.mismatch("C16|h%s|replace-raises:%s" % (H, type(e).__name__), file=src, path=path, msg=str(e)[:200])
+            for fl in ContractStats.failures[before:]:
+                acc.mismatch("C16|h%s|replace-contract|%s" % (H, fl[0]), file=src, path=path, info=list(fl[1:]))
+            lt = getattr(c, "co_linetable", None) or getattr(c, "co_lnotab", b"")
+            if len(lt) > 0:
+                acc.distinct.add(sha([C.hexs(c.co_code), C.hexs(lt)]))
+        if len(acc.samples) < 3:
+            acc.sample({"host": H, "file": src, "portable_type": want_type.__name__})
+    acc.count("c16_replace_contract_evaluations", ContractStats.evaluations)
+    return acc.result()
+
+
+CMDS["roundtrip"] = cmd_roundtrip
+
+
 if __name__ == "__main__":
     main()
